@@ -51,6 +51,7 @@ def run_case(case, prefix=None):
     r.address_length = aw
     model = RegModel(chip.regfile(), lite=lite)
     seen_p0_open = False
+    after_ctx = False
     tx_after_open = False
     last = None
     try:
@@ -87,6 +88,12 @@ def run_case(case, prefix=None):
                 except SimHorizon:
                     res.inconclusive = "send() did not return after %r (not a pipe-0 matter; see DESIGN 6.1)" % (case["ops"],)
                     return res
+            elif k == "ctx":
+                if lite:
+                    continue  # rf24_lite has no context manager
+                r.__exit__(None, None, None)  # the object's with-block ends and is entered again: the radio is powered down
+                r.__enter__()                 # and up, in the role it had
+                model.apply(["ctx"])
             elif k == "ack":
                 r.ack = bool(op[1])  # enabling ACK payloads switches auto-ack on pipe 0 back on (documented)
                 model.apply(["ack", bool(op[1])])
@@ -123,7 +130,11 @@ def run_case(case, prefix=None):
                 if not regs[2] & 1:
                     res.fail(P + "/ack-pipe-closed/needs-ERX_P0", "after open_tx_pipe in TX mode with auto-ack on, pipe 0 is closed")
             # (3) CE discipline
-            if (regs[0] & 3) == 3 and not chip.ce and k != "listen":
+            if k == "ctx":
+                after_ctx = True  # __enter__ restores PRIM_RX with CE low; with-blocks are outside C08's call alphabet, so the
+            elif k == "listen":   # CE clause is judged again from the next listen assignment on
+                after_ctx = False
+            if (regs[0] & 3) == 3 and not chip.ce and k != "listen" and not after_ctx:
                 res.fail(P + "/ce-dropped-in-rx-mode", "CE low in RX mode after %r" % (op,))
             if chip.role_change_ce_high:
                 res.fail(P + "/role-change-with-ce-high", "PRIM_RX toggled while CE was high during %r" % (op,))
@@ -189,7 +200,7 @@ def run_case(case, prefix=None):
 
 
 ALPHA = [["orx", 0, "A"], ["orx", 0, "A2"], ["orx", 0, "As"], ["orx", 1, "B"], ["crx", 0], ["crx", 1], ["otx", "A"],
-         ["otx", "T"], ["otx", "Tp"], ["aa", "on"], ["aa", "off"], ["aa", "p0off"], ["ack", True], ["send"], ["listen", True], ["listen", False]]
+         ["otx", "T"], ["otx", "Tp"], ["aa", "on"], ["aa", "off"], ["aa", "p0off"], ["ack", True], ["send"], ["ctx"], ["listen", True], ["listen", False]]
 ALPHA_LITE = [o for o in ALPHA if o[0] != "aa"]
 
 
